@@ -1,7 +1,9 @@
 #!/usr/bin/env python3
-"""Detection self-test of the source tie (property Src): mutate the C source of a translated kernel in a
-scratch copy of spqlios/coeffs/coeffs_arithmetic.c, regenerate lean/Gen/CSrc.lean with tools/c2lean.py and
-rebuild SpqProofs.Properties.Src.  Semantic mutations must break the build; harmless rewrites are reported.
+"""Detection self-test of the source tie (Properties/Src*.lean, extra modules of C05/C07/C08/C09): mutate the C
+source of a translated function in a scratch copy of /repo/spqlios (coeffs_arithmetic.c, arithmetic/vec_znx.c,
+coeffs_arithmetic_avx.c), regenerate lean/Gen/CSrc.lean with tools/c2lean.py and rebuild the property module
+that states the theorem of the mutated function.  Semantic mutations must break the build (or make the translator
+report the function as unsupported, which check.py turns into a generator error); harmless rewrites are reported.
 
 usage: python3 tools/src_selftest.py            (uses $VERIF_REPO or /repo as the pristine source; never writes there)
 The generated file lean/Gen/CSrc.lean is restored from the pristine source at the end.
@@ -11,6 +13,37 @@ import os, shutil, subprocess, sys, tempfile, time
 VERIF = os.path.dirname(os.path.dirname(os.path.abspath(__file__)))
 REPO = os.environ.get("VERIF_REPO", "/repo")
 SRC = "spqlios/coeffs/coeffs_arithmetic.c"
+SRC_VEC = "spqlios/arithmetic/vec_znx.c"
+SRC_AVX = "spqlios/coeffs/coeffs_arithmetic_avx.c"
+SRC_VECAVX = "spqlios/arithmetic/vec_znx_avx.c"
+ALL_SRCS = [SRC, SRC_VEC, SRC_AVX, SRC_VECAVX]
+
+# property module holding the theorems of a function
+def module_of(fn):
+    if fn.startswith("vec_znx_") and fn.endswith("_avx"):
+        return "SpqProofs.Properties.SrcVecAvx"
+    if fn.startswith("vec_znx_normalize"):
+        return "SpqProofs.Properties.SrcVecNorm"
+    if fn.startswith("vec_znx_"):
+        return "SpqProofs.Properties.SrcVec"
+    if fn.endswith("_avx"):
+        return "SpqProofs.Properties.SrcAvx"
+    if "automorphism_inplace" in fn:
+        return "SpqProofs.Properties.SrcAutIn"
+    if "normalize" in fn or "base_k" in fn:
+        return "SpqProofs.Properties.SrcNorm"
+    if any(k in fn for k in ("rotate", "mul_xp", "automorphism")):
+        return "SpqProofs.Properties.SrcRot"
+    return "SpqProofs.Properties.SrcElem"
+
+def src_of(fn):
+    if fn.startswith("vec_znx_"):
+        return SRC_VECAVX if fn.endswith("_avx") else SRC_VEC
+    return SRC_AVX if fn.endswith("_avx") else SRC
+
+ALL_MODULES = ["SpqProofs.Properties.SrcElem", "SpqProofs.Properties.SrcRot", "SpqProofs.Properties.SrcNorm",
+               "SpqProofs.Properties.SrcVec", "SpqProofs.Properties.SrcAutIn", "SpqProofs.Properties.SrcAvx",
+               "SpqProofs.Properties.SrcVecAvx", "SpqProofs.Properties.SrcVecNorm"]
 
 # (id, kind, description, function the edit is made in, old text, new text, occurrence index inside the function)
 CASES = [
@@ -38,6 +71,32 @@ CASES = [
      "int64_t y = get_base_k_digit(digit_plus_cin, base_k);\n\n        out[i] = y;\n      }", "int64_t y = get_base_k_digit(digit_plus_cin, base_k);\n\n        out[i] = digit;\n      }", 0),
     ("M12", "semantic", "rnx_mul_xp_minus_one_inplace: `++nb_modif` -> `nb_modif += 2`", "rnx_mul_xp_minus_one_inplace",
      "++nb_modif;", "nb_modif += 2;", 0),
+    ("M13", "semantic", "znx_automorphism_inplace_i64: `j_start = (5 * j_start) & mask` -> `(3 * j_start) & mask`",
+     "znx_automorphism_inplace_i64", "5 * j_start", "3 * j_start", 0),
+    ("W1", "semantic", "vec_znx_add_ref: second branch copies from `b` instead of `a` (`a + i * a_sl` -> `b + i * b_sl`)",
+     "vec_znx_add_ref", "znx_copy_i64_ref(nn, res + i * res_sl, a + i * a_sl);", "znx_copy_i64_ref(nn, res + i * res_sl, b + i * b_sl);", 0),
+    ("W2", "semantic", "vec_znx_rotate_ref: result limb pointer uses the source stride (`res + i * res_sl` -> `res + i * a_sl`)",
+     "vec_znx_rotate_ref", "int64_t* res_ptr = res + i * res_sl;", "int64_t* res_ptr = res + i * a_sl;", 0),
+    ("W3", "semantic", "vec_znx_negate_ref: zero-extension loop starts one limb late", "vec_znx_negate_ref",
+     "uint64_t i = smin; i < res_size", "uint64_t i = smin + 1; i < res_size", 0),
+    ("A1", "semantic", "znx_add_i64_avx: the 256-bit loop subtracts (`_mm256_add_epi64` -> `_mm256_sub_epi64`)",
+     "znx_add_i64_avx", "_mm256_add_epi64(", "_mm256_sub_epi64(", 0),
+    ("A2", "semantic", "znx_sub_i64_avx: `nn <= 2` -> `nn <= 4` (nn = 4 handled by one 128-bit store)",
+     "znx_sub_i64_avx", "nn <= 2", "nn <= 4", 0),
+    ("A3", "semantic", "znx_negate_i64_avx: 256-bit loop computes `1 - a` (`_mm256_set1_epi64x(0)` -> `(1)`)",
+     "znx_negate_i64_avx", "_mm256_set1_epi64x(0)", "_mm256_set1_epi64x(1)", 0),
+    ("A4", "semantic", "znx_negate_i64_avx: `++aa` dropped from the loop (source pointer never advances)",
+     "znx_negate_i64_avx", "      ++rr;\n      ++aa;", "      ++rr;", 0),
+    ("W4", "semantic", "vec_znx_sub_avx: the tail `res = -b` copies instead (`znx_negate_i64_avx` -> `znx_copy_i64_avx`)",
+     "vec_znx_sub_avx", "znx_negate_i64_avx(nn, res + i * res_sl, b + i * b_sl);", "znx_copy_i64_avx(nn, res + i * res_sl, b + i * b_sl);", 0),
+    ("W5", "semantic", "vec_znx_add_avx: first loop bound `i < sum_idx` -> `i < copy_idx`", "vec_znx_add_avx",
+     "i < sum_idx", "i < copy_idx", 0),
+    ("W6", "semantic", "vec_znx_normalize_base2k_ref: normalising loop stops one limb early (`i >= 1` -> `i >= 2`)",
+     "vec_znx_normalize_base2k_ref", "for (; i >= 1; --i)", "for (; i >= 2; --i)", 0),
+    ("W7", "semantic", "vec_znx_normalize_base2k_ref: the carry-only pass forgets `cin = cout;`",
+     "vec_znx_normalize_base2k_ref", "znx_normalize(nn, log2_base2k, 0x0, cout, a + i * a_sl, cin);\n    cin = cout;", "znx_normalize(nn, log2_base2k, 0x0, cout, a + i * a_sl, cin);", 0),
+    ("W8", "semantic", "vec_znx_normalize_base2k_tmp_bytes_ref: `sizeof(int64_t)` -> `sizeof(int32_t)`",
+     "vec_znx_normalize_base2k_tmp_bytes_ref", "sizeof(int64_t)", "sizeof(int32_t)", 0),
     ("H1", "harmless", "znx_rotate_i64: rename locals `nma` -> `n_minus_a`, `j` -> `jj`", "znx_rotate_i64",
      None, None, 0),
     ("H2", "harmless", "znx_automorphism_i64: swap the independent statements `res[0] = in[0];` and `uint64_t a = 0;`",
@@ -46,6 +105,12 @@ CASES = [
     ("H4", "harmless", "znx_automorphism_i64: swap the declarations of `a` and `_2mn` (renumbers the slots)",
      "znx_automorphism_i64", "  uint64_t a = 0;\n  uint64_t _2mn = 2 * nn - 1;", "  uint64_t _2mn = 2 * nn - 1;\n  uint64_t a = 0;", 0),
     ("H5", "harmless", "znx_sub_i64_ref: `i < nn` -> `nn > i`", "znx_sub_i64_ref", "i < nn", "nn > i", 0),
+    ("H6", "harmless", "znx_add_i64_avx: swap the independent `++aa;` and `++bb;`", "znx_add_i64_avx",
+     "      ++aa;\n      ++bb;", "      ++bb;\n      ++aa;", 0),
+    ("H8", "harmless", "vec_znx_negate_avx: `++i` -> `i++` in the first loop", "vec_znx_negate_avx", "++i", "i++", 0),
+    ("H9", "harmless", "vec_znx_normalize_base2k_ref: zero-extension loop `++i` -> `i++`", "vec_znx_normalize_base2k_ref",
+     "++i", "i++", 0),
+    ("H7", "harmless", "vec_znx_copy_ref: `++i` -> `i++` in the first loop", "vec_znx_copy_ref", "++i", "i++", 0),
 ]
 
 
@@ -85,9 +150,9 @@ def run(cmd, env=None, cwd=None, timeout=1800):
 
 
 def main():
-    pristine = open(os.path.join(REPO, SRC)).read()
+    pristine = {f: open(os.path.join(REPO, f)).read() for f in ALL_SRCS}
     scratch = tempfile.mkdtemp(prefix="srcselftest_")
-    # a minimal source tree for clang: the C file, its header and the headers it includes
+    # a minimal source tree for clang: the C files, their headers and the headers they include
     shutil.copytree(os.path.join(REPO, "spqlios"), os.path.join(scratch, "spqlios"))
     env = dict(os.environ, VERIF_REPO=scratch)
     results = []
@@ -96,23 +161,31 @@ def main():
         for case in CASES:
             if only and case[0] not in only:
                 continue
-            open(os.path.join(scratch, SRC), "w").write(mutate(pristine, case))
+            fn = case[3]
+            src, mod = src_of(fn), module_of(fn)
+            for f in ALL_SRCS:
+                open(os.path.join(scratch, f), "w").write(pristine[f])
+            open(os.path.join(scratch, src), "w").write(mutate(pristine[src], case))
             rc_g, out_g = run([sys.executable, os.path.join(VERIF, "tools", "c2lean.py")], env=env)
             t0 = time.time()
             if rc_g != 0:
                 verdict, detail = "translator-rejects", out_g.strip().splitlines()[-1]
+            elif "'unsupported': {}" not in out_g:
+                # per-function stub (body .skip): check.py reports a generator error for the properties using csrc
+                verdict, detail = "translator-rejects", out_g.strip().splitlines()[-1][:220]
             else:
-                rc_b, out_b = run(["lake", "build", "SpqProofs.Properties.Src"], cwd=os.path.join(VERIF, "lean"))
+                rc_b, out_b = run(["lake", "build", mod], cwd=os.path.join(VERIF, "lean"))
                 errs = [l for l in out_b.splitlines() if l.startswith("error:")]
                 verdict = "build-fails" if rc_b != 0 else "build-passes"
                 detail = (errs[0][:220] if errs else "")
             results.append((case[0], case[1], case[2], verdict, detail, time.time() - t0))
-            print(f"{case[0]} [{case[1]}] {case[2]}\n    -> {verdict}  {detail}", flush=True)
+            print(f"{case[0]} [{case[1]}] {case[2]}\n    -> {verdict} ({mod.split('.')[-1]}, {time.time() - t0:.0f}s)  {detail}", flush=True)
     finally:
-        open(os.path.join(scratch, SRC), "w").write(pristine)
+        for f in ALL_SRCS:
+            open(os.path.join(scratch, f), "w").write(pristine[f])
         run([sys.executable, os.path.join(VERIF, "tools", "c2lean.py")], env=env)
-        rc, out = run(["lake", "build", "SpqProofs.Properties.Src"], cwd=os.path.join(VERIF, "lean"))
-        print("restored pristine Gen/CSrc.lean; build of SpqProofs.Properties.Src:", "ok" if rc == 0 else "FAILS")
+        rc, out = run(["lake", "build"] + ALL_MODULES, cwd=os.path.join(VERIF, "lean"))
+        print("restored pristine Gen/CSrc.lean; build of the Src* property modules:", "ok" if rc == 0 else "FAILS")
         shutil.rmtree(scratch, ignore_errors=True)
     bad = [r for r in results if r[1] == "semantic" and r[3] == "build-passes"]
     print(f"semantic mutations detected: {sum(1 for r in results if r[1] == 'semantic' and r[3] != 'build-passes')}"
